@@ -247,6 +247,10 @@ theorem verbatim_not_merge : ¬ Statement_parse_is_merge := by
   rw [hσ]
   exact ⟨(.bn 0, .iri 1, .iri 2, .iri 0), by decide, Or.inl rfl⟩
 
+/-- naming convention of BUILDING §3 for a statement the code falsifies: `_partial` / `_witness` -/
+theorem parse_is_merge_partial : Statement_parse_is_merge_remap := parse_is_merge
+theorem parse_is_merge_witness : ¬ Statement_parse_is_merge := verbatim_not_merge
+
 /-! ### Non-vacuity -/
 
 /-- the hypotheses are met by a target with content, a blank-node-named graph to parse into, and a
